@@ -40,7 +40,11 @@ func toPCO(us []unit) *nasConvert.ProtocolConfigurationOptions {
 		c := nasConvert.NewProtocolOrContainerUnit()
 		c.ProtocolOrContainerID = u.id
 		c.LengthOfContents = u.ln
-		c.Contents = append([]byte{}, u.cts...)
+		c.Contents = hk.Exact(u.cts)
+		if len(u.cts) == 0 && (int(u.id)+len(us))%2 == 0 {
+			// an empty container built as a struct literal: nil, not empty, contents (same unit to the format)
+			c = &nasConvert.ProtocolOrContainerUnit{ProtocolOrContainerID: u.id, LengthOfContents: u.ln}
+		}
 		p.ProtocolOrContainerList = append(p.ProtocolOrContainerList, c)
 	}
 	return p
@@ -49,7 +53,7 @@ func toPCO(us []unit) *nasConvert.ProtocolConfigurationOptions {
 func fromPCO(p *nasConvert.ProtocolConfigurationOptions) []unit {
 	var us []unit
 	for _, c := range p.ProtocolOrContainerList {
-		us = append(us, unit{c.ProtocolOrContainerID, c.LengthOfContents, append([]byte{}, c.Contents...)})
+		us = append(us, unit{c.ProtocolOrContainerID, c.LengthOfContents, hk.Exact(c.Contents)})
 	}
 	return us
 }
@@ -171,7 +175,7 @@ func run(r *hk.Run) {
 	doUnMarshal := func(stream string, bs []byte, want []unit, haveWant bool) {
 		p := nasConvert.NewProtocolConfigurationOptions()
 		var err error
-		in := append([]byte{}, bs...)
+		in := hk.Exact(bs)
 		panicked, hang, pv := hk.CatchTimeout(2e9, func() { err = p.UnMarshal(in) })
 		id := r.NextID()
 		desc := "UnMarshal " + hk.Hex(bs)
@@ -319,7 +323,7 @@ func run(r *hk.Run) {
 					if nv < 0 || nv > 255 || nv == int(u.ln) {
 						continue
 					}
-					m := append([]byte{}, v...)
+					m := hk.Exact(v)
 					m[off+2] = byte(nv)
 					doUnMarshal("length_mutation", m, nil, false)
 				}
@@ -441,7 +445,7 @@ func run(r *hk.Run) {
 				return
 			}
 			wantErr = append(wantErr, false)
-			want = append(want, unit{id, 4, append([]byte{}, a...)})
+			want = append(want, unit{id, 4, hk.Exact(a)})
 		}
 		for k := 1 + r.Rng.Intn(5); k > 0; k-- {
 			switch r.Rng.Intn(7) {
@@ -474,7 +478,7 @@ func run(r *hk.Run) {
 				ip := genIP()
 				ops = append(ops, "ADns6 "+hk.CoqBytes(ip))
 				if len(ip) == 16 {
-					want, wantErr = append(want, unit{0x0003, 16, append([]byte{}, ip...)}), append(wantErr, false)
+					want, wantErr = append(want, unit{0x0003, 16, hk.Exact(ip)}), append(wantErr, false)
 				} else {
 					wantErr = append(wantErr, true)
 				}
